@@ -246,6 +246,33 @@ Theorem C02_string_entry_equals_rune_entry :
 Proof. exact enp_string_entry_equals_rune_entry. Qed.
 Print Assumptions C02_string_entry_equals_rune_entry.
 
+(* FindAllStringIndex up to its first scan: the rune slice is the decoded input and the first scan
+   starts where it finds what a scan from the default start (0, or the end when right-to-left) finds;
+   "return nil" exactly when that scan finds nothing.  The rest of the iteration depends only on
+   that match (C07). *)
+Theorem C02_find_all_string_first_scan :
+  forall (M : Type) (m_index : M -> Z) (search : list Z -> Z -> option M) (rtl : bool) (flt : option en_filter)
+         (b : list Z),
+    enp_in_range M m_index search -> enp_flt_hyp M m_index search rtl flt ->
+    (en_find_all_string_start rtl flt b = Ok None /\
+     search (runes_of b) (Z.of_nat (enp_default_start rtl b)) = None) \/
+    (exists k', (k' <= length (decode b))%nat /\
+       en_find_all_string_start rtl flt b = Ok (Some (runes_of b, Z.of_nat k')) /\
+       search (runes_of b) (Z.of_nat k') = search (runes_of b) (Z.of_nat (enp_default_start rtl b))).
+Proof. exact enp_find_all_string_start. Qed.
+Print Assumptions C02_find_all_string_first_scan.
+
+(* Where the two engine hypotheses come from: ANY scan "attempt at s, s+1, ..., len, first success"
+   whose single attempts do not read the scan start (the only channel is Runtextstart, read by the
+   Start instruction alone) is in range and start independent.  The accelerator-free scan has this
+   shape (Model/Scan.naive_scan) and C03 proves the accelerated scan equal to it. *)
+Theorem C02_scan_of_start_blind_attempts_is_start_independent :
+  forall (M : Type) (m_index : M -> Z) (attempt : list Z -> nat -> option M),
+    (forall r q m, attempt r q = Some m -> m_index m = Z.of_nat q) ->
+    enp_in_range M m_index (enp_scan M attempt) /\ enp_start_indep M m_index (enp_scan M attempt).
+Proof. exact enp_scan_engine. Qed.
+Print Assumptions C02_scan_of_start_blind_attempts_is_start_independent.
+
 (* Each exclusion of the constructor is needed.
    \G: the engine of (?=\G)abc (a match only AT the scan start) is in range and satisfies the fact of
    the prefix filter "abc" at every match start, the filter satisfies enf_ok — only start
